@@ -9,7 +9,7 @@ open JF JF.MP
 requests                                       replies
 `init <cores> <n> <a_0> … <a_{n-1}>`            `ok`        (`a_h` = 1 iff `send_out_state` of handler `h` takes arguments)
 `leg c <created…> w <wait…> w <wait…> x <chosen> t <trashed…>`
-    `ok tag=<t> tagok=<0|1> path=<p> left=<k> pre=<l> disc=<l> st=<d…> stored=<l> seen=<d…|d…> pushed=<l>
+    `ok tag=<t> tagok=<0|1> path=<p> left=<k> pre=<l> disc=<l> st=<d…> stored=<l> seen=<d…|d…> pushed=<l> arrived=<l>
         end=<d…> proto=<abc> legit=<0|1> inv=<0|1> quiet=<0|1> inflight=<k>`
     | `err:<outcome>`   (state unchanged)
 `d` = stage digit 0 idle, 1 event_time_started, 2 suspended, 3 out_state_started; `<l>` = comma separated handlers
@@ -18,7 +18,8 @@ the trash loop, `seen` = stages of the returned pipes at each `wait`; `tagok` = 
 tag of the last start of the chosen handler; `proto` = activator protocol observed (created handlers not running
 and distinct / chosen handler running / chosen handler trashed); `legit` = every `wait` result met the contract;
 `inv` = boundary invariant holds after the leg; `quiet` = every worker blocked with an empty pipe after the leg;
-`inflight` = handlers left in out_state_started after the leg. -/
+`inflight` = handlers left in out_state_started after the leg; `pushed` = handlers of the `push_event` calls in
+order (after the receive loop, in the order of `created`), `arrived` = order in which the candidate times arrived. -/
 structure MPSt where
   cfg : Cfg := ⟨2, fun _ => false⟩
   nh : Nat := 0
@@ -32,7 +33,7 @@ private def stageDigit : Stage → String
 
 private def showErr : Err → String
   | .notReady => "notReady" | .alreadyFinished => "alreadyFinished" | .keyError => "keyError"
-  | .assertIdle => "assertIdle" | .workerContinueInIdle => "workerContinueInIdle" | .recvBlocks => "recvBlocks"
+  | .timeMissing => "timeMissing" | .assertIdle => "assertIdle" | .workerContinueInIdle => "workerContinueInIdle" | .recvBlocks => "recvBlocks"
   | .misread => "misread" | .deadlock => "deadlock" | .starved => "starved" | .adversary => "adversary"
 
 private def showPath : Path → String
@@ -91,7 +92,7 @@ def mpComp : Comp := ⟨MPSt, {}, fun s a =>
         let seen := "|".intercalate (o.loop.seen.reverse.map fun w => String.join (w.map stageDigit))
         let r := s!"ok tag={o.tag} tagok={b01 (o.tag == last' x)} path={showPath o.path} left={o.waitsLeft} " ++
           s!"pre={showL o.loop.pre} disc={showL (o.discarded.filter (· != x))} st={digits s.nh o.atCommit} " ++
-          s!"stored={showL stored} seen={if seen.isEmpty then "-" else seen} pushed={showL (o.loop.pushed.map (·.1))} " ++
+          s!"stored={showL stored} seen={if seen.isEmpty then "-" else seen} pushed={showL (o.pushes.map (·.1))} arrived={showL (o.loop.recvd.map (·.1))} " ++
           s!"end={digits s.nh o.st} proto={b01 pA}{b01 pB}{b01 pC} legit={b01 lg} inv={b01 inv} " ++
           s!"quiet={b01 quiet} inflight={infl}"
         ({ s with st := (hs.map o.st).toArray, running := (hs.map run').toArray, last := (hs.map last').toArray,
